@@ -167,10 +167,136 @@ def _core():
     return o
 
 
+def _variants():
+    """Further argument forms per function, biased towards parameters that make (part of) the function a no-op:
+    that is where an intermediate result may still *be* the caller's tensor when an in-place step follows."""
+    o: Dict[str, Callable] = {}
+    RED = ["mean", "sum", "none"]
+    SP = [None, 1.0, 2.0]
+    MODES = ["forward", "backward", "central", "forward_central_backward", "prewitt", "sobel", "bspline", "gaussian"]
+    o["U.normalize_image:range"] = lambda c: U.normalize_image(
+        c.pick([c.img, c.unit, c.prob])(), mode=c.pick(["unit", "center"]),
+        **c.pick([dict(min=0, max=1), dict(min=0.0, max=1.0), dict(min=-0.5, max=0.5), dict(min=0, max=2), dict(min=-1, max=1), dict(min=0.25), dict(max=0.5)]))
+    o["U.normalize_image:explicit"] = lambda c: U.normalize_image(c.pick([c.img, c.prob])(), mode=c.pick(["unit", "center", "z"]), min=c.pick([None, 0]), max=c.pick([None, 1]), inplace=False)
+    o["U.normalize_image:int"] = lambda c: U.normalize_image(c.labels(), mode=c.pick(["unit", "center", "z"]), **c.pick([dict(), dict(min=0, max=1)]))
+    o["U.rescale:range"] = lambda c: U.rescale(c.pick([c.img, c.prob, c.unit])(), **c.pick([
+        dict(), dict(min=0, max=1), dict(min=0, max=1, data_min=0, data_max=1), dict(min=-2, max=2, data_min=-2, data_max=2),
+        dict(data_min=0, data_max=1), dict(min=0, max=255, dtype=torch.uint8), dict(min=0.5), dict(max=3.0)]))
+    o["U.rescale:int"] = lambda c: U.rescale(c.labels(), **c.pick([dict(), dict(min=0, max=2), dict(min=0, max=2, data_min=0, data_max=2), dict(min=0, max=1, dtype=torch.float32)]))
+    o["U.threshold:forms"] = lambda c: U.threshold(c.img(), c.pick([None, -10.0, 0.0]), c.pick([None, 10.0, 0.5]))
+    o["U.pad:forms"] = lambda c: U.pad(c.img(), **c.pick([dict(margin=0), dict(num=0), dict(margin=(0,) * c.D), dict(margin=(1, 0) + (0,) * (c.D - 2) if False else 1, mode="replicate"),
+                                                           dict(num=(0, 1) * c.D), dict(num=(0, 0) * c.D), dict(margin=-1)]))
+    o["U.crop:forms"] = lambda c: U.crop(c.img(), **c.pick([dict(margin=0), dict(num=0), dict(num=(0, 0) * c.D), dict(num=(1, 0) * c.D), dict(margin=-1), dict(margin=-1, mode="replicate"), dict(margin=(0,) * c.D)]))
+    o["U.center_crop:same"] = lambda c: U.center_crop(c.img(), c.pick([tuple(reversed(c.shape)), max(c.shape), tuple(reversed(c.shape_plus(-1)))]))
+    o["U.center_pad:same"] = lambda c: U.center_pad(c.img(), c.pick([tuple(reversed(c.shape)), min(c.shape)]), mode=c.pick(["constant", "replicate"]))
+    o["U.grid_resize:same"] = lambda c: U.grid_resize(c.img(), tuple(reversed(c.shape)), mode=c.pick(["linear", "nearest"]), align_corners=c.pick([True, False]))
+    o["U.grid_resample:same"] = lambda c: U.grid_resample(c.img(), c.pick([1.0, 2.0]), c.pick([1.0, 2.0]))
+    o["U.grid_reshape:modes"] = lambda c: U.grid_reshape(c.img(), c.shape_plus(c.pick([0, 0, 1])), mode=c.pick(["linear", "nearest"]), align_corners=c.pick([True, False]))
+    o["U.downsample:levels"] = lambda c: U.downsample(c.img(), levels=c.pick([0, 1, -1]), sigma=c.pick([None, 0, 0.7]), dims=c.pick([None, (0,), ("x",)]), mode=c.pick([None, "nearest"]), align_corners=c.pick([True, False]))
+    o["U.upsample:levels"] = lambda c: U.upsample(c.img(), levels=c.pick([0, 1, -1]), sigma=c.pick([None, 0, 0.7]), dims=c.pick([None, (1,)]))
+    o["U.gaussian_pyramid:forms"] = lambda c: U.gaussian_pyramid(c.img(), levels=c.pick([1, 2]), start=c.pick([0, 1]), sigma=c.pick([None, 0.8]), min_size=c.pick([0, 3]))
+    o["U.avg_pool:forms"] = lambda c: U.avg_pool(c.img(), c.pick([1, 2, 3]), stride=c.pick([None, 1]), padding=c.pick([0, 0, 1]), count_include_pad=c.pick([True, False]))
+    o["U.max_pool:forms"] = lambda c: U.max_pool(c.img(), c.pick([1, 2, 3]), stride=c.pick([None, 1]), padding=c.pick([0, 0, 1]))
+    o["U.min_pool:forms"] = lambda c: U.min_pool(c.img(), c.pick([1, 2, 3]), stride=c.pick([None, 1]), padding=c.pick([0, 0, 1]))
+    o["U.conv:forms"] = lambda c: U.conv(c.img(), c.pick([c.kernel(), torch.ones(1), [c.kernel(), None] + [None] * (c.D - 2), [torch.ones(1)] * c.D]),
+                                          padding=c.pick([None, "zeros", "replicate", "reflect", 0, 1]), stride=c.pick([1, 1, 2]))
+    o["U.conv1d:forms"] = lambda c: U.conv1d(c.img(), c.pick([c.kernel(), torch.ones(1), torch.tensor([0.0, 1.0, 0.0])]), dim=c.pick([-1, -2, 2]),
+                                              padding=c.pick([None, "zeros", "replicate", "reflect", 0, 1]), dtype=c.pick([None, torch.float32, torch.float64]))
+    o["U.fill_border:forms"] = lambda c: U.fill_border(c.img(), c.pick([0, 1, (1,) + (0,) * (c.D - 1)]), value=c.pick([0, 2.0]), inplace=False)
+    o["U.move_dim:forms"] = lambda c: U.move_dim(c.img(), c.pick([1, 0, -1]), c.pick([1, 0, -1]))
+    o["U.abspow:forms"] = lambda c: U.abspow(c.pick([c.img, c.prob])(), c.pick([1, 1.0, 2, 0, 3]))
+    o["U.round_decimals:forms"] = lambda c: U.round_decimals(c.img(), c.pick([0, 1, 3]))
+    o["U.as_tensor:forms"] = lambda c: U.as_tensor(c.img(), dtype=c.pick([None, torch.float32, torch.float64]), device=c.pick([None, "cpu"]))
+    o["U.as_float_tensor:int"] = lambda c: U.as_float_tensor(c.labels())
+    o["U.atleast_1d:forms"] = lambda c: U.atleast_1d(c.img(), dtype=c.pick([None, torch.float32, torch.float64]))
+    o["U.as_one_hot_tensor:float"] = lambda c: U.as_one_hot_tensor(c.pick([c.labels, c.prob])(), c.pick([2, 3]), dtype=c.pick([None, torch.float32]))
+    o["U.expv:forms"] = lambda c: U.expv(c.flow(0.05), steps=c.pick([0, 1, 4]), scale=c.pick([None, 1, 1.0, 0.5, -1]), inverse=c.pick([False, True]),
+                                          sampling=c.pick(["linear", "bspline"]) if False else "linear", padding=c.pick(["border", "zeros"]), align_corners=c.pick([True, False]))
+    o["U.compose_flows:forms"] = lambda c: U.compose_flows(c.flow(n=1), c.flow(n=1), align_corners=c.pick([True, False]))
+    o["U.compose_svfs:forms"] = lambda c: U.compose_svfs(c.flow(), c.flow(), bch_terms=c.pick([0, 1, 2, 3, 4]), mode=c.pick([None, "central", "bspline"]), sigma=c.pick([None, 0.8]), spacing=c.pick(SP))
+    o["U.lie_bracket:forms"] = lambda c: U.lie_bracket(c.flow(), c.flow(), mode=c.pick([None] + MODES), sigma=c.pick([None, 0.8]), spacing=c.pick(SP), stride=c.pick([None, 1]))
+    o["U.divergence:forms"] = lambda c: U.divergence(c.flow(), mode=c.pick([None] + MODES), sigma=c.pick([None, 0, 0.8]), spacing=c.pick(SP), stride=c.pick([None, 1, 2]))
+    o["U.curl:forms"] = lambda c: U.curl(c.flow(), mode=c.pick([None] + MODES), sigma=c.pick([None, 0.8]), spacing=c.pick(SP))
+    o["U.jacobian_det:forms"] = lambda c: U.jacobian_det(c.flow(), mode=c.pick([None] + MODES), sigma=c.pick([None, 0.8]), spacing=c.pick(SP), stride=c.pick([None, 1, 2]), add_identity=c.pick([True, False]))
+    o["U.jacobian_matrix:forms"] = lambda c: U.jacobian_matrix(c.flow(), mode=c.pick([None] + MODES), sigma=c.pick([None, 0.8]), spacing=c.pick(SP), add_identity=c.pick([True, False]))
+    o["U.jacobian_dict:forms"] = lambda c: U.jacobian_dict(c.flow(), mode=c.pick([None] + MODES), spacing=c.pick(SP), add_identity=c.pick([True, False]))
+    o["U.flow_derivatives:forms"] = lambda c: U.flow_derivatives(c.flow(), **c.pick([dict(order=0), dict(order=1), dict(order=2), dict(which="du/dx", order=None), dict(which=["du/dy", "dv/dx", "du/dxx"])]),
+                                                                  mode=c.pick([None] + MODES), sigma=c.pick([None, 0.8]), spacing=c.pick(SP), stride=c.pick([None, 1]))
+    o["U.spatial_derivatives:forms"] = lambda c: U.spatial_derivatives(c.img(), **c.pick([dict(order=0), dict(order=1), dict(order=2), dict(which=""), dict(which=["", "x"]), dict(which="xy")]),
+                                                                        mode=c.pick([None] + MODES), sigma=c.pick([None, 0, 0.8]), spacing=c.pick(SP), stride=c.pick([None, 1]))
+    o["U.finite_differences:forms"] = lambda c: U.finite_differences(c.img(), c.pick([0, 1, "x", "y"]), mode=c.pick(["forward", "backward", "central", "forward_central_backward", "prewitt", "sobel"]),
+                                                                      order=c.pick([0, 1, 2]), dilation=c.pick([1, 2]), spacing=c.pick([1, 1.0, 2.0]))
+    o["U.divergence_free_flow:forms"] = lambda c: U.divergence_free_flow(c.img1() if c.D == 2 else c.flow(ch=c.pick([2, 3])), mode=c.pick([None, "central", "forward"]), sigma=c.pick([None, 0.8]), spacing=c.pick(SP))
+    o["U.evaluate_cubic_bspline:forms"] = lambda c: U.evaluate_cubic_bspline(c.flow(), stride=c.pick([None, 1, 2, 3]), transpose=c.pick([False, True]), derivative=c.pick([None, 0, 1]),
+                                                                              shape=c.pick([None, None, tuple(c.shape)]))
+    o["U.subdivide_cubic_bspline:forms"] = lambda c: U.subdivide_cubic_bspline(c.flow(), dims=c.pick([None, 0, (0, 1), "x", ()]))
+    o["U.sample_image:forms"] = lambda c: U.sample_image(c.pick([c.img, c.labels])(), c.pick([c.coords, c.pts])(), mode=c.pick([None, "linear", "nearest", "bspline"]) if False else c.pick([None, "linear", "nearest"]),
+                                                          padding=c.pick([None, "border", "zeros", "reflection", 0, 2.0]), align_corners=c.pick([True, False]))
+    o["U.grid_sample:forms"] = lambda c: U.grid_sample(c.pick([c.img, c.labels, c.mask])(), c.coords(), mode=c.pick([None, "nearest", "linear"]), padding=c.pick([None, "border", "zeros", 0, 1.5]), align_corners=c.pick([True, False]))
+    o["U.grid_sample_mask:forms"] = lambda c: U.grid_sample_mask(c.pick([c.mask, c.prob, c.labels])(), c.coords(), threshold=c.pick([0, 0.5]), align_corners=c.pick([True, False]))
+    o["U.sample_flow:forms"] = lambda c: U.sample_flow(c.flow(), c.pick([c.coords, c.pts])(), padding=c.pick([None, "border", "zeros", 0.5]), align_corners=c.pick([True, False]))
+    o["U.warp_image:forms"] = lambda c: U.warp_image(c.pick([c.img, c.labels])(), c.coords(), flow=c.pick([None, None, c.disp_last()]), mode=c.pick([None, "nearest"]), padding=c.pick([None, "border", "zeros", 1.0]), align_corners=c.pick([True, False]))
+    o["U.warp_grid:forms"] = lambda c: U.warp_grid(c.flow(), c.coords(), align_corners=c.pick([True, False]))
+    o["U.warp_points:forms"] = lambda c: U.warp_points(c.flow(), c.pick([c.pts, c.coords])(), align_corners=c.pick([True, False]))
+    o["U.transform_grid:forms"] = lambda c: U.transform_grid(c.pick([c.flow, c.mat, lambda: c.mat(n=1)])(), c.coords(), align_corners=c.pick([True, False]))
+    o["U.transform_points:forms"] = lambda c: U.transform_points(c.pick([c.flow, c.mat, lambda: c.mat(n=1)])(), c.pick([c.pts, c.coords])(), align_corners=c.pick([True, False]))
+    o["U.denormalize_flow:forms"] = lambda c: U.denormalize_flow(c.flow(), size=c.pick([None, torch.Size(c.shape)]), side_length=c.pick([2, 1, 2.0]), align_corners=c.pick([True, False]))
+    o["U.normalize_flow:forms"] = lambda c: U.normalize_flow(c.flow(), size=c.pick([None, torch.Size(c.shape)]), side_length=c.pick([2, 1, 2.0]), align_corners=c.pick([True, False]))
+    o["U.denormalize_flow:last"] = lambda c: U.denormalize_flow(c.disp_last(), size=torch.Size(c.shape), channels_last=True, align_corners=c.pick([True, False]))
+    o["U.normalize_flow:last"] = lambda c: U.normalize_flow(c.disp_last(), size=torch.Size(c.shape), channels_last=True, align_corners=c.pick([True, False]))
+    o["U.denormalize_grid:forms"] = lambda c: U.denormalize_grid(c.coords(), size=c.pick([None, torch.Size(c.shape)]), side_length=c.pick([2, 1]), align_corners=c.pick([True, False]))
+    o["U.normalize_grid:forms"] = lambda c: U.normalize_grid(c.coords(), size=c.pick([None, torch.Size(c.shape)]), side_length=c.pick([2, 1]), align_corners=c.pick([True, False]))
+    o["U.affine_flow:last"] = lambda c: U.affine_flow(c.pick([c.mat, lambda: c.mat(n=1)])(), c.pick([c.grid, c.coords()]), channels_last=c.pick([False, True]))
+    o["U.homogeneous_matrix:forms"] = lambda c: U.homogeneous_matrix(c.pick([c.mat, lambda: c.vec(c.D), lambda: c.mat()[..., : c.D]])(), offset=c.pick([None, c.vec(c.D)]))
+    o["U.as_homogeneous_matrix:forms"] = lambda c: U.as_homogeneous_matrix(c.pick([c.mat, lambda: c.mat()[..., : c.D], lambda: c.mat()[..., c.D :]])(), dtype=c.pick([None, torch.float32, torch.float64]))
+    o["U.as_homogeneous_tensor:forms"] = lambda c: U.as_homogeneous_tensor(c.pick([c.mat, lambda: c.mat()[..., : c.D], lambda: c.mat()[..., c.D :]])(), dtype=c.pick([None, torch.float32]))
+    o["U.homogeneous_matmul:forms"] = lambda c: U.homogeneous_matmul(*[c.pick([c.mat, lambda: c.mat()[..., : c.D], lambda: c.mat()[..., c.D :], lambda: c.mat(n=1)])() for _ in range(c.pick([1, 2, 3]))])
+    o["U.hmm:forms"] = lambda c: U.hmm(c.pick([c.mat, lambda: c.mat()[..., : c.D], lambda: c.mat()[..., c.D :]])(), c.pick([c.mat, lambda: c.mat()[..., : c.D], lambda: c.mat()[..., c.D :]])())
+    o["U.homogeneous_transform:forms"] = lambda c: U.homogeneous_transform(c.pick([c.mat, lambda: c.mat(n=1), lambda: c.mat()[..., : c.D], lambda: c.mat()[..., c.D :]])(), c.pick([c.pts, c.coords])(), vectors=c.pick([False, True]))
+    o["U.image_slice:forms"] = lambda c: U.image_slice(c.img(), offset=c.pick([None, 0, 1]))
+    o["U.rand_sample:forms"] = lambda c: U.rand_sample(c.pick([c.img(), [c.img(), c.img()]]), c.pick([4, 1000]), mask=c.maybe(c.mask), replacement=c.pick([False, True]), generator=torch.Generator().manual_seed(1))
+    o["U.bounding_box:coords"] = lambda c: U.bounding_box(c.coords())
+    o["U.polyline:forms"] = lambda c: (U.polyline_directions(c.pts(), normalize=c.pick([False, True]), repeat_last=c.pick([False, True])), U.polyline_tangents(c.pts(), normalize=c.pick([False, True]), repeat_first=c.pick([False, True])))
+    o["U.vectordot:forms"] = lambda c: U.vectordot(c.pts(), c.pts(), w=c.maybe(c.ptsw), dim=c.pick([-1, 1]))
+    o["U.logv:forms"] = lambda c: U.logv(c.flow(0.03, n=1), num_iters=c.pick([0, 1, 2]), bch_terms=c.pick([0, 1, 2]), sigma=c.pick([None, 1.0]), exp_steps=c.pick([None, 3]), align_corners=c.pick([True, False]))
+    # ---- losses: reductions, weights, masks, degenerate parameters
+    for n in ["l1_loss", "mae_loss", "mse_loss", "ssd_loss", "huber_loss", "smooth_l1_loss"]:
+        o["L." + n + ":forms"] = (lambda c, n=n: getattr(L, n)(*c.img_pair(), mask=c.pick([None, c.mask(), c.maskC()]), norm=c.pick([None, 1.0, 2.0, torch.tensor(2.0)]), reduction=c.pick(RED)))
+    o["L.ncc_loss:forms"] = lambda c: L.ncc_loss(*c.img_pair(), mask=c.pick([None, c.mask(), c.maskC()]), reduction=c.pick(RED))
+    o["L.lcc_loss:forms"] = lambda c: L.lcc_loss(*c.img_pair(), mask=c.pick([None, c.mask(), c.maskC()]), kernel_size=c.pick([1, 3, 5]), reduction=c.pick(RED))
+    o["L.wlcc_loss:forms"] = lambda c: L.wlcc_loss(*c.img_pair(), mask=c.maybe(c.mask), source_mask=c.maybe(c.mask), target_mask=c.maybe(c.mask), kernel_size=c.pick([1, 3]), reduction=c.pick(RED))
+    o["L.mi_loss:forms"] = lambda c: L.mi_loss(*c.pick([c.img1_pair, c.img_pair])(), mask=c.pick([None, c.mask()]), vmin=c.pick([None, -1.0]), vmax=c.pick([None, 1.0]), num_bins=c.pick([None, 8, 16]),
+                                                num_samples=c.pick([None, None, 16]), sample_ratio=c.pick([None, None, 0.5]), normalized=c.pick([False, True]))
+    o["L.nmi_loss:forms"] = lambda c: L.nmi_loss(*c.img1_pair(), mask=c.pick([None, c.mask()]), vmin=c.pick([None, -1.0]), vmax=c.pick([None, 1.0]), num_bins=c.pick([8, 16]), num_samples=c.pick([None, None, 16]))
+    o["L.dice:forms"] = lambda c: (L.dice_loss(c.prob(), c.pick([c.prob, c.mask])(), weight=c.pick([None, c.mask(), c.maskC()]), reduction=c.pick(RED)),
+                                    L.dice_score(c.prob(), c.prob(), weight=c.pick([None, c.mask()]), reduction=c.pick(RED)))
+    o["L.tversky_index:forms"] = lambda c: L.tversky_index(c.pick([c.prob, c.img, c.img1])(), c.pick([c.prob, c.labels])(), weight=c.pick([None, c.maskC()]), alpha=c.pick([None, 0.3]), beta=c.pick([None, 0.7]),
+                                                            normalize=c.pick([False, True]), binarize=c.pick([False, True]), reduction=c.pick(RED))
+    o["L.tversky_index_with_logits:forms"] = lambda c: L.tversky_index_with_logits(c.pick([c.img, c.img1])(), c.pick([c.prob, c.labels])(), weight=c.pick([None, c.maskC()]), binarize=c.pick([False, True]), reduction=c.pick(RED))
+    o["L.focal_loss_with_logits:forms"] = lambda c: L.focal_loss_with_logits(c.img(), c.prob(), weight=c.pick([None, c.maskC()]), alpha=c.pick([0.25, 0.5, 1.0]), gamma=c.pick([0, 1, 2]), reduction=c.pick(RED))
+    o["L.bbce:forms"] = lambda c: L.balanced_binary_cross_entropy_with_logits(c.pick([c.img1, c.img])(), c.pick([c.mask, c.maskC])(), weight=c.pick([None, c.mask()]), reduction=c.pick(RED))
+    o["L.kld_loss:forms"] = lambda c: L.kld_loss(*c.img_pair(), reduction=c.pick(RED))
+    o["L.label_smoothing:forms"] = lambda c: L.label_smoothing(c.pick([c.labels, c.prob])(), num_classes=c.pick([None, 3]), ignore_index=c.pick([None, 0]), alpha=c.pick([0, 0.1, 1.0]))
+    o["L.masked_loss:forms"] = lambda c: L.masked_loss(c.img(), c.pick([None, c.mask(), c.maskC()]), inplace=False)
+    o["L.reduce_loss:forms"] = lambda c: L.reduce_loss(c.img(), c.pick(RED), mask=c.pick([None, c.mask(), c.maskC()]))
+    o["L.elementwise_loss:forms"] = lambda c: L.elementwise_loss("x", c.pick([torch.nn.functional.l1_loss, torch.nn.functional.mse_loss]), *c.img_pair(), mask=c.pick([None, c.mask()]), norm=c.pick([None, 1.0, 2.0]), reduction=c.pick(RED))
+    o["L.inverse_consistency_loss:forms"] = lambda c: L.inverse_consistency_loss(c.flow(0.05), c.flow(0.05), grid=c.pick([None, c.grid]), margin=c.pick([0, 1, 0.1]), mask=c.pick([None, c.mask()]),
+                                                                                  units=c.pick(["cube", "voxel", "world"]), reduction=c.pick(RED))
+    for n in ["be_loss", "bending_energy", "bending_loss", "curvature_loss", "diffusion_loss", "divergence_loss", "total_variation_loss", "tv_loss"]:
+        o["L." + n + ":forms"] = (lambda c, n=n: getattr(L, n)(c.flow(), mode=c.pick([None] + MODES), sigma=c.pick([None, 0.8]), spacing=c.pick(SP), stride=c.pick([None, 1]), reduction=c.pick(RED)))
+    o["L.grad_loss:forms"] = lambda c: L.grad_loss(c.flow(), p=c.pick([1, 2, 0.5]), q=c.pick([1, 2, None, 0.5]), mode=c.pick([None] + MODES), spacing=c.pick(SP), reduction=c.pick(RED))
+    o["L.elasticity_loss:forms"] = lambda c: L.elasticity_loss(c.flow(), **c.pick([dict(first_parameter=1.0, second_parameter=0.5), dict(shear_modulus=1.0, poissons_ratio=0.3), dict(youngs_modulus=2.0, poissons_ratio=0.25), dict(material_name=None, first_parameter=0.0, second_parameter=1.0)]),
+                                                                mode=c.pick([None, "central"]), spacing=c.pick(SP), reduction=c.pick(RED))
+    for n in ["bspline_be_loss", "bspline_bending_energy", "bspline_bending_loss"]:
+        o["L." + n + ":forms"] = (lambda c, n=n: getattr(L, n)(c.flow(), stride=c.pick([1, 2, (1, 2) + (1,) * (c.D - 2)]), reduction=c.pick(RED)))
+    return o
+
+
 REGISTRY: Dict[str, Callable] = {}
 REGISTRY.update(_core())
 REGISTRY.update(_flow_losses())
 REGISTRY.update(_pair_losses())
+REGISTRY.update(_variants())
 
 # functions that take no tensor argument (pure constructors / scalars): nothing to mutate
 NO_TENSOR_ARGS = {
